@@ -83,6 +83,42 @@ def run(ck):
                         'rows_with_gaps': [row[:200] for row in r['rows'] if '-' in row][:3]})
         elif len(s) >= 2:
             ck.nontriv((s[:80], len(s), n, t).__repr__())
+    # ---- the file entry point: the same copies read from a FASTA file (with / without a final newline, CRLF), written in three formats ----
+    import os, tempfile, shutil
+    tmpd = tempfile.mkdtemp(prefix='kv_c08_')
+    try:
+        flines, fmeta = [], []
+        for k in range(18 if quick else 120):
+            kind = 'dna' if rng.chance(1, 2) else 'protein'
+            L = rng.choice([1, 2, 3, 7, 30, 60, 61, 120, 200])
+            fam, sq = rng.choice(compositions(rng, kind, L))
+            n = rng.choice([2, 3, 5, 12])
+            text = gen.fasta(['c%d' % i for i in range(n)], [sq] * n, rng.choice([60, 17, 1000]))
+            pres = rng.choice(['plain', 'no-final-newline', 'crlf'])
+            if pres == 'no-final-newline': text = text.rstrip('\n')
+            elif pres == 'crlf': text = text.replace('\n', '\r\n')
+            inp = os.path.join(tmpd, 'in%d.fa' % k); open(inp, 'w', newline='').write(text)
+            fmt = rng.choice(['fasta', 'msf', 'clu'])
+            outp = os.path.join(tmpd, 'out%d.%s' % (k, fmt))
+            flines.append('runfile 0 %d 5 %d %d %d %s %s %s' % (rng.choice([1, 4]), gen.NG, gen.NG, gen.NG, fmt, outp, inp))
+            fmeta.append((sq, n, pres, fmt, outp))
+            ck.count('file entry point: %s' % pres)
+        fres = ck.run_lines(kvh, flines, timeout=1200)
+        ck.evaluations += len(flines)
+        for (sq, n, pres, fmt, outp), o in zip(fmeta, fres):
+            rows = None
+            if o.startswith('OK') and os.path.exists(outp):
+                texto = open(outp, encoding='latin-1').read()
+                if fmt == 'fasta': rows = gen.parse_fasta(texto)[1]
+                elif fmt == 'clu': rows = gen.parse_clustal(texto)[2]
+                else: rows = [r.replace('.', '-') for r in gen.parse_msf(texto)[2]]
+            if rows is None:
+                wit.append({'kind': 'run-failed-on-identical-input', 'entry': 'file', 'presentation': pres, 'string': sq[:200], 'copies': n, 'implementation': o[:200]})
+            elif [r.upper() for r in rows] != [sq.upper()] * n and rows != [sq] * n:
+                wit.append({'kind': 'gap-in-alignment-of-identical-sequences', 'entry': 'file', 'presentation': pres, 'format': fmt, 'string': sq[:300], 'copies': n,
+                            'rows': [r[:200] for r in rows][:4]})
+    finally:
+        shutil.rmtree(tmpd, ignore_errors=True)
     # ---- the degenerate input of the bisecting k-means: >= 100 identical copies, many lengths (tree building only) -----
     kl, kmeta = [], []
     for k in range(42 if quick else 400):
